@@ -101,8 +101,10 @@ impl Prop for P {
                 let mut c = if *force_flag { CompressorOxide::new((cfg.make().flags() as u32) | deflate_flags::TDEFL_COMPUTE_ADLER32) } else { cfg.make() };
                 let tracks = *force_flag || cfg.is_zlib();
                 if !tracks {
-                    cx.class("comp-running:raw-without-compute-flag(skipped)");
-                    return Ok(());
+                    // a raw compressor without the flag does not track; switched to zlib before any
+                    // data it has to
+                    c = cfg.make_born_raw_then_zlib();
+                    cx.class("comp-running:born-raw-switched-to-zlib");
                 }
                 let mut pos = 0usize;
                 let mut calls = 0;
